@@ -8,7 +8,7 @@ struct in IN;
 static struct evutil_weakrand_state ST;
 
 VF_CONTRACT(ev_int32_t, weakrand_c, struct evutil_weakrand_state *state)
-__CPROVER_requires(__CPROVER_is_fresh(state, sizeof(*state)))
+__CPROVER_requires(__CPROVER_rw_ok(state, sizeof(*state)))
 __CPROVER_assigns(state->seed)
 __CPROVER_ensures(__CPROVER_return_value >= 0 && __CPROVER_return_value <= EVUTIL_WEAKRAND_MAX)
 __CPROVER_ensures(state->seed == ((__CPROVER_old(state->seed) * 1103515245u + 12345u) & 0x7fffffffu))
